@@ -26,11 +26,19 @@ def absent_ids(edges, rng):
              ('ZZZ', '1'), ('AAA', '1'), ('owl', 'Thing2'), ('owl', 'Thin')]
     for a, b in zip(keys, keys[1:]):
         cands.append((a[0], a[1] + '!'))      # sorts right after a, before b unless equal
+    # another prefix with the id part of an existing node (a lookup that looks at the id part only must not find it),
+    # and an existing prefix with an unused id part
+    twins = []
+    for a in keys[:3] + keys[-1:]:
+        twins.append(('MP' if a[0] != 'MP' else 'HP', a[1]))
+        twins.append((a[0], a[1] + a[1]))
     for k in cands:
         if k not in have and k != ('owl', 'Thing') and ':' not in k[0]:
             out.append(k[0] + ':' + k[1])
     rng.shuffle(out)
-    return list(dict.fromkeys(out))[:8]
+    tw = [k[0] + ':' + k[1] for k in twins if k not in have and ':' not in k[0]]
+    rng.shuffle(tw)
+    return list(dict.fromkeys(tw[:3] + out))[:10]
 
 
 def calls_for(edges, rng, factory):
